@@ -147,7 +147,7 @@ def iso_spec(draw, n, tmax=2.0):
 
 
 def _shape(draw):
-    return draw(st.sampled_from([[], [], [1], [2], [3]]))
+    return draw(st.sampled_from([[], [], [1], [2], [3], [2, 2], [2, 3], [3, 1]]))
 
 
 @st.composite
@@ -164,7 +164,8 @@ def walls_case(draw):
     units = [draw(wall_unit(n)) for _ in range(gen.prod(shape))]
     ys = [[draw(fl(-1.0, 1.0)) for _ in range(n + 1)] for _ in range(3)]
     return dict(n=n, shape=shape, units=units, ys=ys,
-                route=draw(st.sampled_from(["hyperplane", "hyperplane", "subspace"])),
+                route=draw(st.sampled_from(["hyperplane", "hyperplane", "subspace", "raw",
+                                            "moved"])),
                 src=draw(st.sampled_from(["library", "harness_col", "harness_row"])))
 
 
@@ -202,6 +203,22 @@ def build_wall(case):
         else:
             data = np.array(vs).reshape(shape + (1, n + 1)).copy()
         obj = hyperbolic.Hyperplane(data)
+    elif case["route"] == "raw":
+        # the stored rows of a hyperplane, rescaled unit by unit and handed back to the
+        # constructor: the same walls, with stored normals that are not unit vectors
+        data = np.array(vs).reshape(shape + (1, n + 1)).copy()
+        rows = np.array(hyperbolic.Hyperplane(data[()] if shape else data[0]).proj_data)
+        k = np.array([1.0 / u["s"] if abs(u["s"]) < 1 else abs(u["s"]) for u in case["units"]])
+        obj = hyperbolic.Hyperplane(rows * k.reshape(shape + (1, 1)))
+    elif case["route"] == "moved":
+        # the standard wall e_1^perp moved by the isometry C, whose matrix is given up to a
+        # scalar (a transformation is a projective map): normal s * C e_1
+        e1 = np.zeros((1, n + 1))
+        e1[0, 1] = 1.0
+        base = hyperbolic.Hyperplane(np.tile(e1, shape + (1, 1)))
+        g = Isometry(np.array([u["s"] * C.T for u, C in zip(case["units"], Cs)]).reshape(
+            shape + (n + 1, n + 1)))
+        obj = g @ base
     else:
         S = standard_ideal_points(n)
         data = np.array([(C @ S.T).T for C in Cs]).reshape(shape + (n, n + 1))
@@ -299,11 +316,7 @@ def body_reflection(case, ctx):
 def build_reflection(case, vs):
     n, shape = case["n"], tuple(case["shape"])
     if case["src"] == "library":
-        if shape == ():
-            data = vs[0].copy()
-        else:
-            data = np.array(vs).reshape(shape + (1, n + 1)).copy()
-        return hyperbolic.Hyperplane(data).reflection_across()
+        return build_wall(case)[0].reflection_across()
     cols = np.array([refl_col(v) for v in vs]).reshape(shape + (n + 1, n + 1))
     if case["src"] == "harness_col":
         return Isometry(cols.copy(), column_vectors=True)
@@ -508,7 +521,8 @@ def elliptic_case(draw):
     fam = draw(st.sampled_from(["simple", "simple", "simple", "repeated"]))
     units = [draw(elliptic_unit(n, fam)) for _ in range(gen.prod(shape))]
     return dict(n=n, shape=shape, units=units,
-                via=draw(st.sampled_from(["matrix", "compose"])))
+                via=draw(st.sampled_from(["matrix", "compose", "compose_queried",
+                                          "reassigned"])))
 
 
 @st.composite
@@ -517,7 +531,8 @@ def fix_case(draw, unit_strategy):
     shape = draw(st.sampled_from([[], [], [], [2]]))
     units = [draw(unit_strategy(n)) for _ in range(gen.prod(shape))]
     return dict(n=n, shape=shape, units=units,
-                via=draw(st.sampled_from(["matrix", "compose"])))
+                via=draw(st.sampled_from(["matrix", "compose", "compose_queried",
+                                          "reassigned"])))
 
 
 def elliptic_T0(n, u):
@@ -539,6 +554,24 @@ def conjugate(case, T0s, Cs):
     if case["via"] == "compose" and shape == ():
         Ci = Isometry(Cs[0].copy(), column_vectors=True)
         return Ci @ T0s[0] @ Ci.inv()
+    if case["via"] in ("compose_queried", "reassigned"):
+        # the same product, formed after the operands have been asked for *their* fixed
+        # points and axes (what they answered must not travel into the product), or written
+        # with set() into an isometry object that has already answered for another matrix
+        T0c = T0s[0] if shape == () else Isometry(
+            np.array([np.array(T0.matrix) for T0 in T0s]).reshape(shape + (n + 1, n + 1)))
+        Cc = Isometry(np.array(Cs).reshape(shape + (n + 1, n + 1)).copy(), column_vectors=True)
+        for X in (T0c, Cc):
+            for q in ("fixed_point", "fixed_point_pair", "axis"):
+                try:
+                    getattr(X, q)()
+                except Exception:  # noqa  (their answers are decided elsewhere)
+                    pass
+        T = Cc @ T0c @ Cc.inv()
+        if case["via"] == "reassigned":
+            Cc.set(np.array(T.matrix).copy())
+            return Cc
+        return T
     mats = [C @ np.array(T0.matrix).T @ np.linalg.inv(C) for T0, C in zip(T0s, Cs)]
     data = np.array(mats).reshape(shape + (n + 1, n + 1))
     return Isometry(data.copy(), column_vectors=True)
